@@ -10,7 +10,7 @@ Everything here works on `ast` only -- nothing imports or runs SQLAlchemy.
                     the "is this object matched" decision over the possible evaluator results) instead of matching
                     the shape of its `if` statements.  Anything outside the subset raises `Unsupported` (-> exit 2).
 * alias / boolean-local resolution (`single_defs`, `expand_expr`)
-* `inline_helpers`  the inverse of 'extract method' on a copy of a function's AST (statement-level calls and calls in
+* `normal_form`     the inverse of 'extract method' on a copy of a function's AST (statement-level calls and calls in
                     `if` tests of same-module helpers), adapted from the rob-B1 helper of the same name.
 """
 
@@ -448,8 +448,10 @@ def _simple_arg(e) -> bool:
     return isinstance(e, (ast.Name, ast.Constant))
 
 
-def _inlinable(ctx, f, call: ast.Call, skip):
+def _inlinable(ctx, f, call: ast.Call, skip, want=None):
     callee = resolve_callee(ctx, f, call)
+    if callee is not None and want is not None and not want(callee):
+        return None
     if callee is None or callee.node is f.node or callee.module is not f.module or callee.name in skip:
         return None
     if callee.name == f.name or not isinstance(callee.node, ast.FunctionDef):
@@ -480,10 +482,10 @@ def _relocate(stmts: List[ast.stmt], call: ast.Call, counter: List[int]):
                 n.col_offset = n.end_col_offset = 1000 + counter[0]
 
 
-def _inline_call(ctx, f, call: ast.Call, mode: str, used: set, skip, counter, targets=None) -> Optional[List[ast.stmt]]:
+def _inline_call(ctx, f, call: ast.Call, mode: str, used: set, skip, counter, targets=None, want=None) -> Optional[List[ast.stmt]]:
     """Statements equivalent to `helper(..)` (mode 'expr'), `<targets> = helper(..)` ('assign') or
     `return helper(..)` ('return'), or None when the helper cannot be inlined faithfully."""
-    r = _inlinable(ctx, f, call, skip)
+    r = _inlinable(ctx, f, call, skip, want)
     if r is None:
         return None
     callee, m = r
@@ -570,19 +572,19 @@ class _InlinePredicates(ast.NodeTransformer):
     visit_AsyncFunctionDef = visit_Lambda = visit_FunctionDef
 
 
-def _inline_block(ctx, f, body: List[ast.stmt], used: set, skip, depth: int, counter) -> List[ast.stmt]:
+def _inline_block(ctx, f, body: List[ast.stmt], used: set, skip, depth: int, counter, want=None) -> List[ast.stmt]:
     out: List[ast.stmt] = []
     for st in body:
         repl = None
         if depth > 0:
             if isinstance(st, ast.Expr) and isinstance(st.value, ast.Call):
-                repl = _inline_call(ctx, f, st.value, "expr", used, skip, counter)
+                repl = _inline_call(ctx, f, st.value, "expr", used, skip, counter, None, want)
             elif isinstance(st, ast.Assign) and isinstance(st.value, ast.Call):
-                repl = _inline_call(ctx, f, st.value, "assign", used, skip, counter, st.targets)
+                repl = _inline_call(ctx, f, st.value, "assign", used, skip, counter, st.targets, want)
             elif isinstance(st, ast.Return) and isinstance(st.value, ast.Call):
-                repl = _inline_call(ctx, f, st.value, "return", used, skip, counter)
+                repl = _inline_call(ctx, f, st.value, "return", used, skip, counter, None, want)
         if repl is not None:
-            out.extend(_inline_block(ctx, f, repl, used, skip, depth - 1, counter))
+            out.extend(_inline_block(ctx, f, repl, used, skip, depth - 1, counter, want))
             continue
         # predicate helpers in the statement's own expressions
         tr = _InlinePredicates(ctx, f, skip, counter, depth)
@@ -594,9 +596,9 @@ def _inline_block(ctx, f, body: List[ast.stmt], used: set, skip, depth: int, cou
         for fld in ("body", "orelse", "finalbody"):
             sub_ = getattr(st, fld, None)
             if isinstance(sub_, list) and sub_ and isinstance(sub_[0], ast.stmt) and not isinstance(st, (ast.FunctionDef, ast.AsyncFunctionDef, ast.ClassDef)):
-                setattr(st, fld, _inline_block(ctx, f, sub_, used, skip, depth, counter))
+                setattr(st, fld, _inline_block(ctx, f, sub_, used, skip, depth, counter, want))
         for h in getattr(st, "handlers", []) or []:
-            h.body = _inline_block(ctx, f, h.body, used, skip, depth, counter)
+            h.body = _inline_block(ctx, f, h.body, used, skip, depth, counter, want)
         out.append(st)
     return out
 
@@ -642,20 +644,20 @@ def _resolve_pure_aliases(node) -> int:
     return T.n
 
 
-def normal_form(ctx, f, skip=(), depth: int = 2, aliases: bool = True):
+def normal_form(ctx, f, skip=(), depth: int = 2, aliases: bool = True, want=None):
     """A copy of FuncInfo `f` whose AST has (a) the statement-level calls of same-module helpers / methods of its own
     class (`helper(x)`, `y = helper(x)`, `return helper(x)`) replaced by the helper's body with the arguments
     substituted and single-expression predicate helpers expanded inside expressions -- the inverse of 'extract
-    method' -- and (b) pure aliases (`dialect = connection.dialect`) resolved.  Helpers named in `skip`, generators,
+    method'; `want(callee FuncInfo)` selects the statement-level helpers worth following -- and (b) pure aliases (`dialect = connection.dialect`) resolved.  Helpers named in `skip`, generators,
     decorated functions and helpers with early returns (unless called as `return helper(..)`) stay calls.
     The result has fresh AST nodes: use `parent_map(f2.node)` and `ctx.cfg(f2.node)`."""
     cache = ctx.__dict__.setdefault("_rob_g1_nf", {})
-    k = (id(f.node), tuple(sorted(skip)), depth, aliases)
+    k = (id(f.node), tuple(sorted(skip)), depth, aliases, id(want))
     if k in cache:
         return cache[k]
     node = copy.deepcopy(f.node)
     used = {n.id for n in ast.walk(node) if isinstance(n, ast.Name)} | set(params_of(node))
-    node.body = _inline_block(ctx, f, node.body, used, set(skip), depth, [0])
+    node.body = _inline_block(ctx, f, node.body, used, set(skip), depth, [0], want)
     if aliases:
         _resolve_pure_aliases(node)
     f2 = copy.copy(f)
